@@ -217,13 +217,17 @@ func vfoRun(scn *vfoScn) (*vfoResult, error) {
 			if scn.CloseOutside {
 				// the node stays silent: the receiver waits for the first batch, the sender dispatches
 				// ahead until the hand-over channel is full and blocks there; then the run is closed
-				// from outside (leadership change, shutdown …). The node is released after the run has
-				// returned (below), so whatever was dispatched shows up in its execution log.
+				// from outside (leadership change, shutdown …). The node is released a little later, so
+				// whatever was dispatched shows up in its execution log.
 				for i := 0; i < 40000 && d.HeldCount() == 0; i++ {
 					time.Sleep(250 * time.Microsecond)
 				}
 				time.Sleep(150 * time.Millisecond) // lets the sender fill the channel; only detection power depends on it
 				cancel()
+				// give a faulty sender time to dispatch again, then let the node answer (the client's
+				// Close waits for its node pipeline, which waits for the node)
+				time.Sleep(150 * time.Millisecond)
+				d.Unstall(scn.StallNode)
 				return
 			}
 			if scn.CpBatch {
@@ -288,8 +292,7 @@ func vfoRun(scn *vfoScn) (*vfoResult, error) {
 		}
 	}
 	if scn.CloseOutside {
-		// the run has returned: release the node and wait until its execution log is stable
-		d.Unstall(scn.StallNode)
+		// the run has returned: wait until the node's execution log is stable
 		prev, same := -1, 0
 		for i := 0; i < 400 && same < 20; i++ {
 			_, ex, _ := d.Snapshot()
@@ -815,8 +818,12 @@ func TestVerifC19Out(t *testing.T) {
 	r := vfutil.NewRand(vfutil.Seed() + 1919)
 	idx := 0
 	// every mode with a redirect / cross-slot batch at least a few times
-	for _, f := range []string{"txn-block", "txn-block", "txn-block", "txn-pipe", "txn-pipe", "txn-cross", "txn-cross",
-		"nofollow-block", "nofollow-pipe", "cpbatch-block", "cpbatch-block-1", "cpbatch-block-2", "cpbatch-pipe", "close-outside", "fault", "fault", "fault", "fault", "fault", "fault"} {
+	forced := []string{"txn-block", "txn-block", "txn-block", "txn-pipe", "txn-pipe", "txn-cross", "txn-cross",
+		"nofollow-block", "nofollow-pipe", "cpbatch-block", "cpbatch-block-1", "cpbatch-block-2", "cpbatch-pipe", "close-outside", "fault", "fault", "fault", "fault", "fault", "fault"}
+	if only := os.Getenv("VERIF_C19_ONLY"); only != "" {
+		forced = []string{only}
+	}
+	for _, f := range forced {
 		vfoOne(t, s, idx, vfoGen(r.Fork(), fmt.Sprintf("f%d", idx), f))
 		idx++
 	}
